@@ -84,7 +84,7 @@ def run_tasks(tasks, deadline=None):
             merged.merge(acc)
         if merged.incomplete:
             break
-    merged.timings = sorted(timings, key=lambda t: -t[0])[:5]
+    merged.timings = sorted(timings, key=lambda t: -t[0])[:8]
     return merged
 
 
